@@ -115,6 +115,8 @@ def run(ctx, res):
     for fmt in _reg.FORMATS:
         choices = _reg.cred_choices(fmt)
         for f in attest.applicable(fmt):
+            if f in attest.MALFORMED:
+                continue
             for ch in choices:      # every credential choice: some faults only exist for one key type
                 tasks.append(("reg", fmt, ch, (f,), ()))
         if fmt in attest.CHAIN_FORMATS:
@@ -122,7 +124,7 @@ def run(ctx, res):
             for cf in ca.CHAIN_FAULTS:
                 tasks.append(("reg", fmt, rng.choice(choices), (), (cf,)))
         for _ in range(5 if ctx.quick() else 80):
-            tasks.append(("reg", fmt, rng.choice(choices), tuple(rng.sample(attest.applicable(fmt), 2)), ()))
+            tasks.append(("reg", fmt, rng.choice(choices), tuple(rng.sample([f for f in attest.applicable(fmt) if f not in attest.MALFORMED], 2)), ()))
     for i in range(16):
         tasks.append(("cbor", ctx.seed * 31 + i, 200 if ctx.quick() else 5000))
     for kind in ("reg", "auth"):
